@@ -164,22 +164,38 @@ def run(rep, tier):
             yield t
             for c in t.get_children():
                 yield from walk(c)
-        for t in walk(st):
+        user_classes = {o.d.get('name') for o in routes.walk_objs(getattr(m, 'body', []) or [])
+                        if o.cls.name == 'Class'}
+
+        def walk_with_parent(t, parent=None):
+            yield t, parent
+            for c in t.get_children():
+                yield from walk_with_parent(c, t)
+        for t, parent in walk_with_parent(st):
             if t.get_type() != 'function':
                 continue
+            # the constructor of a generated class takes the user's field names as parameters: a bare
+            # read in that scope is shadowed by a *field* of that name (a different collision than a
+            # rule or class rebinding the module global)
+            in_ctor = parent is not None and parent.get_type() == 'class' and parent.get_name() in user_classes \
+                and t.get_name() == '__init__'
             for s in t.get_symbols():
                 name = s.get_name()
                 if s.is_global() and s.is_referenced() and not name.startswith('_') and name not in api \
                         and name not in user_defined:
                     kind = 'builtin' if hasattr(builtins, name) else 'global'
-                    reads.setdefault((kind, name), t.get_name())
+                    if in_ctor:
+                        kind += '-in-constructor'
+                    reads.setdefault((kind, name), f'{parent.get_name()}.{t.get_name()}' if in_ctor else t.get_name())
         rep.count('emitted modules scanned for bare-name reads')
     for (kind, name), where in sorted(reads.items()):
         rep.oblige(False)
         rep.add(Finding('NAME-bare-read', kind, name,
-                        f'generated code reads the {kind} `{name}` by bare name (e.g. in {where}): a user rule or '
-                        f'class named `{name}` rebinds it for the whole module, a field / let variable / parameter '
-                        f'named `{name}` shadows it inside its rule function',
+                        f'generated code reads the {kind} `{name}` by bare name (e.g. in {where}): '
+                        + (f'the constructor takes the class\'s field names as parameters, so a field named '
+                           f'`{name}` shadows it there' if kind.endswith('-in-constructor') else
+                           f'a user rule or class named `{name}` rebinds it for the whole module, a field / let '
+                           f'variable / parameter named `{name}` shadows it inside its rule function'),
                         'sourcer/translator.py templates + sourcer/expressions emission'))
     # (ii-b) user keyword names (keyword arguments of template calls) handed to a callee as Python
     # keywords: the callee's own parameter names must lie outside the user identifier space
